@@ -182,6 +182,18 @@ CaseOK(c) ==
                    res == BX!ElemB(ty, c.fn, ToX(ty, xq))
                    tw == [k \in 0..3 |-> IF k = 0 THEN (IF c.fn = "tanh" THEN QInt(c.sign) ELSE QInt(-1)) ELSE Q0]
                IN  SameParts(JetX(ty, res), AQ!ChainA(JetQ(ty, xq), tw), FALSE)
+          [] c.k = "sqoverflow" -> \* x * x overflows: f' of asinh, acosh is 1/|x| (representable), every other derivative underflows to 0
+               LET xq == GenQ(ty, IF c.sign > 0 THEN SqBig ELSE QNeg(SqBig), 3)
+                   res == BX!ElemB(ty, c.fn, ToX(ty, xq))
+                   tw == [k \in 0..3 |-> IF k = 1 /\ c.fn # "atan" THEN QInv(SqBig) ELSE Q0]
+               IN  SameParts(JetX(ty, res), AQ!ChainA(JetQ(ty, xq), tw), TRUE)
+          [] c.k = "sqoverflow4" -> \* ... and on Dual2<Dual2> no part is NaN or infinite (values: float harness)
+               LET h == IF c.sign > 0 THEN SqBig ELSE QNeg(SqBig)
+                   inner(r, k) == [re |-> XQ(r), v1 |-> XQ(GV(k)), v2 |-> XQ(GV(k + 1))]
+                   x4 == [re |-> inner(h, 1), v1 |-> inner(QInt(2), 3), v2 |-> inner(QInt(-3), 5)]
+                   res == NB!ElemB(NB!TDual2, c.fn, x4)
+                   fin(v) == XFinite(v.re) /\ XFinite(v.v1) /\ XFinite(v.v2)
+               IN  fin(res.re) /\ fin(res.v1) /\ fin(res.v2)
           [] c.k = "saturate4" -> \* the same on the nested type Dual2<Dual2> with generic parts at both levels
                LET h == IF c.sign > 0 THEN Huge ELSE QNeg(Huge)
                    inner(r, k) == [re |-> XQ(r), v1 |-> XQ(GV(k)), v2 |-> XQ(GV(k + 1))]
@@ -212,6 +224,10 @@ Cases ==
              ty \in Types, fn \in {"sph_j0", "sph_j1", "sph_j2", "exp_m1", "ln_1p", "bessel_j0", "bessel_j2"}}
     \cup {[k |-> "saturate", ty |-> ty, fn |-> "tanh", sign |-> sg] : ty \in Types, sg \in {-1, 1}}
     \cup {[k |-> "saturate", ty |-> ty, fn |-> "exp_m1", sign |-> -1] : ty \in Types}
+    \cup {[k |-> "sqoverflow", ty |-> ty, fn |-> fn, sign |-> sg] :
+             ty \in Types, fn \in {"atan", "asinh"}, sg \in {-1, 1}}
+    \cup {[k |-> "sqoverflow", ty |-> ty, fn |-> "acosh", sign |-> 1] : ty \in Types}
+    \cup {[k |-> "sqoverflow4", ty |-> BX!TDual2, fn |-> fn, sign |-> 1] : fn \in {"atan", "asinh", "acosh"}}
     \cup {[k |-> "saturate4", ty |-> BX!TDual2, fn |-> "tanh", sign |-> sg] : sg \in {-1, 1}}
     \cup {[k |-> "zero4", ty |-> BX!TDual2, fn |-> fn] :
              fn \in {"sph_j0", "sph_j1", "sph_j2", "bessel_j0"}}
